@@ -230,7 +230,9 @@ def run_task(task):
     wname, prefix, depth, seed = task
     init, cfg = WORLDS[wname]
     acc = base.Acc()
-    explore.dfs(init, cfg, prefix, depth, acc, seed, nontrivial=nontrivial,
+    # (einsum / matmul reduce in another order than the model's `(a * a).sum()`: forward values of those worlds are compared to 1e-12,
+    # not bitwise - thorough-tier false alarm at depth 4, where the operands are no longer short dyadic numbers)
+    explore.dfs(init, cfg, prefix, depth, acc, seed, nontrivial=nontrivial, oracle=explore.c04_check_approx if wname.endswith("rep") else explore.c04_check,
                 on_state=lambda h, r, a: on_state(h, r, a, (init, seed)))
     for v in acc.violations:
         v["case"]["world"] = wname
@@ -260,7 +262,8 @@ def plan(tier, seed):
 
 
 def _fails(init, h, seed):
-    r = explore.Run(init, h, seed)
+    rep = any(st[0] == "op1" and st[3] in ("einxx", "einxx_r", "matxx", "mseq3", "catxx") for st in h)
+    r = explore.Run(init, h, seed, oracle=explore.c04_check_approx if rep else explore.c04_check)
     if r.failure is not None:
         f = r.failure
         r.close()
